@@ -29,6 +29,18 @@ def make_frame(rng, n, recipe):
     return nf, rows, labels, kind
 
 
+def cq_frame(nf):
+    """the frame as FrameRows.fframe: base columns by value, the nested column by its physical read-back"""
+    cols = []
+    for name in nf.columns:
+        col = nf[name]
+        if name == "n":
+            cols.append(f"({core.cq_str(name)}, FNested {core.cq_phys(core.phys(col.array.chunked_array))})")
+        else:
+            cols.append(f"({core.cq_str(name)}, FBase {core.cq_vals(list(col))})")
+    return core.cq_list(cols)
+
+
 def paired(res_nf, rows):
     """every surviving row still pairs its base id with its own nested table"""
     if not isinstance(res_nf, NestedFrame):
@@ -65,6 +77,8 @@ def generate(ctx):
                              "reindex", "concat", "loc_list", "sample", "drop_duplicates_w", "query_base", "take"])
         uniq = len(set(labels)) == len(labels)
 
+        mask_used = [None]
+
         def run():
             if opname == "iloc_list":
                 ix = [rng.randint(-n, n - 1) for _ in range(rng.randint(0, 5))] if n else []
@@ -74,6 +88,7 @@ def generate(ctx):
                 return nf.iloc[a:b:s], list(range(n))[a:b:s]
             if opname == "mask":
                 m = [rng.random() < 0.5 for _ in range(n)]
+                mask_used[0] = m
                 return nf[np.array(m, dtype=bool)], [j for j in range(n) if m[j]]
             if opname == "sort_values_base":
                 asc = rng.random() < 0.5
@@ -124,11 +139,27 @@ def generate(ctx):
                 got = [int(x) - 1000 for x in out["rid"]]
                 if got != list(positions):
                     ok, why = False, f"rows {got} != expected positions {positions}"
-        # pure Python-side verdict (pandas dispatch is a contract): flag B carries it; flag A is vacuous here
+        # Python-side verdict (flag B) joined with the model: the real frame before and after, read back physically,
+        # against FrameRows.f_take / f_filter with the positions the operation must have used
+        term = f"[true; {cq_bool(ok)}; true; true]"
+        modelled = False
+        if res[0] == "ok" and isinstance(res[1][0], NestedFrame) and list(res[1][0].columns) == list(nf.columns):
+            out, positions = res[1]
+            rid = list(out["rid"])
+            if all(isinstance(r, (int, np.integer)) for r in rid):
+                pos = [int(r) - 1000 for r in rid]
+                if all(0 <= q < n for q in pos):
+                    if opname == "mask" and mask_used[0] is not None:
+                        chk = f"chk_frame_filter {n} {cq_frame(nf)} {core.cq_bools(mask_used[0])} {cq_frame(out)}"
+                    else:
+                        chk = f"chk_frame_take {n} {cq_frame(nf)} {core.cq_nats(pos)} {cq_frame(out)}"
+                    term = (f"(let r := {chk} in [nth 0 r false; {cq_bool(ok)} && nth 1 r false; "
+                            "nth 2 r false; nth 3 r false])")
+                    modelled = True
         cases.append({"stream": "frame_rows", "op": "frame_" + opname,
-                      "term": f"[true; {cq_bool(ok)}; true; true]",
+                      "term": term,
                       "input": {"n": n, "layout": recipe, "labels": [repr(x) for x in labels], "rows": [None if r is None else len(r["id"]) for r in rows]},
-                      "impl_repr": why or "paired", "meta": {"layout": recipe, "impl_raised": res[0] == "err", "label_kind": kind},
+                      "impl_repr": why or "paired", "meta": {"layout": recipe, "impl_raised": res[0] == "err", "label_kind": kind, "modelled": modelled},
                       "sig": ["frame_" + opname, recipe, n, kind], "trivial": n == 0,
                       "hist": {"op": "frame_" + opname, "layout": recipe}})
     return cases
